@@ -356,7 +356,11 @@ def ext_close(want, got):
 
 
 def weight_tolerances(c, r, n, stripped):
-    """Rounding bound of w = (m1 - m0*x1)/(x2-x1): scaled by the cancellation in the numerator."""
+    """Rounding bound of w = (m1 - m0*x1)/(x2-x1) evaluated in binary64: 2^-40 times the cancellation in the numerator
+    (|m1| + |m0 x1|)/(x2-x1) + |m0| of the two adjacent intervals; the renormalisation without boundary points multiplies the
+    bound by (1/sum)^2 and adds the bound of the sum."""
+    if c['mb']:
+        return [T40 * 4] * (n - 2 if stripped else n)
     pts = r['pts']
     t = [F(0)] * n
     for j in range(n - 1):
@@ -368,16 +372,10 @@ def weight_tolerances(c, r, n, stripped):
             s = abs(m0)
         t[j] += s; t[j + 1] += s
     tol = [T40 * (x + F(1, 2 ** 30)) for x in t]
-    if not c['boundary'] and n > 3 and r['weights'][0] == 'ok':
-        # renormalisation by 1/sum(inner): every tolerance is scaled by the factor (>= 1)
-        if c['mb']:
-            return [T40 * 4] * (n - 2 if stripped else n)
-        inner_model = sum(tol[1:-1]) / T40
-        f = 1 / max(sum(r['static'][1][1:-1]) if r['static'][0] == 'ok' else F(1), F(1, 2 ** 20))
+    if not c['boundary'] and n > 3 and r['static'][0] == 'ok':
+        f = max(F(1), 1 / max(sum(r['static'][1][1:-1]), F(1, 2 ** 20)))
         ssum = sum(tol)
-        tol = [(x + ssum) * max(f, 1) * max(f, 1) for x in tol]
-    if c['mb']:
-        tol = [T40 * 4] * n
+        tol = [(x + ssum) * f * f for x in tol]
     return tol[1:-1] if stripped else tol
 
 
@@ -466,8 +464,14 @@ def check_moments(chk, cases, impl, keys, samples):
             chk.violation('corr:C15/moments', 'worker-failed', dict(status=st), c, dict(impl=str(r)[:300]))
             continue
         if r[0] == 'exc':
-            # the adaptive driver / error estimator is not C15's business: counted, not judged
-            chk.count('moments:run-raised %s %s' % (r[1], r[2]))
+            if r[2].startswith('Grid.py:11') or 'GridOperation.py:35' in r[2] or 'GridOperation.py:39' in r[2]:
+                # raised inside the weighted quadrature / distribution code (e.g. 'calculated negative weight')
+                chk.violation('oracle:moments/exception', 'moments-law', dict(clause='exception', boundary=int(c['boundary']),
+                                                                            shared_distribution=shared_distribution(c), truncated_normal=0), c,
+                              dict(property_predicate='the UQ run raises inside the weighted quadrature', exception=r[1:]))
+            else:
+                # the adaptive driver / error estimator is not C15's business: counted, not judged
+                chk.count('moments:run-raised %s %s' % (r[1], r[2]))
             continue
         if r[0] == 'nan':
             chk.violation('oracle:moments/finite', 'moments-law', dict(clause='finite', boundary=int(c['boundary']), shared_distribution=shared_distribution(c),
@@ -552,6 +556,8 @@ def corpus():
     w.append(dict(kind='weights', distr=['Normal', 0.0, 1.0], a=-2.0, b=2.0, boundary=True, mb=False, n=6, style='random', picks=[0.0, 0.9, 0.3, 0.5]))
     m.append(dict(kind='moments', distrs=[['Uniform'], ['Uniform']], a=[0.0, 2.0], b=[1.0, 2.5], boundary=True, c=-3.0, e=0.0, model='jump',
                   const=-2.0, maxev=20, lmax=2))
+    m.append(dict(kind='moments', distrs=[['Uniform'], ['Uniform']], a=[2.0, -1.0], b=[2.5, 3.0], boundary=True, c=2.0, e=1.0, model='smooth',
+                  const=-2.0, maxev=40, lmax=3))      # same finding, seen as 'calculated negative weight'
     m.append(dict(kind='moments', distrs=[['Uniform'], ['Normal', -3.0, 0.5]], a=[-3.0, -4.0], b=[6.0, -2.0], boundary=True, c=0.5, e=1.0,
                   model='jump', const=1.75, maxev=20, lmax=2))
     return w, m
